@@ -99,7 +99,7 @@ type G struct {
 
 	// spin detection (see Select)
 	spinSite    int
-	spinMask    uint32
+	spinSet     []uint32 // (select site, closed case) pairs taken since the last active operation
 	passiveOnly bool
 	spinBlocked bool
 
@@ -498,6 +498,16 @@ func (e *Exec) ready(g *G) {
 
 // active marks a non-passive operation of g (for spin detection).
 func (g *G) active() { g.passiveOnly = false }
+
+func (g *G) inSpinSet(site, c int) bool {
+	k := uint32(site)<<8 | uint32(c)
+	for _, x := range g.spinSet {
+		if x == k {
+			return true
+		}
+	}
+	return false
+}
 
 // ---------- goroutines ----------
 
